@@ -241,7 +241,7 @@ func (c *Chan[T]) TrySendFromTimer(v T) {
 	}
 	c.sync(s)
 	if len(c.buf) < c.capa {
-		c.buf = append(c.buf, item[T]{v: v})
+		c.buf = append(c.buf, item[T]{v: v, vc: s.FiringVC()}) // arming the timer happens before the receive of its tick
 	}
 }
 
@@ -356,6 +356,9 @@ func (c *Chan[T]) CloseFromTimer() {
 	}
 	if s := sched.Cur; s != nil {
 		c.sync(s)
+		if vc := s.FiringVC(); vc != nil && c.closeVC == nil {
+			c.closeVC = vc // arming the deadline happens before anybody observes the close
+		}
 	}
 	c.closed = true
 }
